@@ -59,6 +59,9 @@ Values(t, d) ==
                                 (IF t.signed THEN {I(TRUE, <<1>>), I(TRUE, Pow2(t.bits - 1))} ELSE {}))
       [] t.k = "float" -> {Fl(FALSE, <<>>, 0), Fl(FALSE, <<1, 5>>, 1)}
                           \cup (IF d = 0 THEN {} ELSE {Fl(TRUE, <<>>, 0), Fl(FALSE, <<1>>, 22), Fl(TRUE, <<2, 5>>, -6), Fl(FALSE, <<1>>, 3)})
+      [] t.k = "bytes" -> {[nil |-> TRUE, b |-> <<>>], [nil |-> FALSE, b |-> <<0>>], [nil |-> FALSE, b |-> <<255, 1>>]}
+                          \cup (IF d = 0 THEN {} ELSE {[nil |-> FALSE, b |-> <<>>], [nil |-> FALSE, b |-> <<1, 2, 3>>], [nil |-> FALSE, b |-> <<104, 105, 33, 0>>]})
+      [] t.k = "barr" -> {[b |-> [i \in 1..t.n |-> 0]], [b |-> [i \in 1..t.n |-> 250 + i]]}
       [] t.k = "slice" -> {[nil |-> TRUE, e |-> <<>>]}
                           \cup {[nil |-> FALSE, e |-> <<x>>] : x \in Values(t.e, Dec(d))}
                           \cup (IF d = 0 THEN {} ELSE {[nil |-> FALSE, e |-> <<>>]} \cup
@@ -117,6 +120,12 @@ Inputs(t, d) ==
       [] t.k = "str" -> {S(<<>>), S(<<97>>)} \cup (IF d = 0 THEN {} ELSE {N(<<49>>), S(<<60, 233, 34, 128512>>), Arr(<<>>)})
       [] t.k = "int" -> IntInputs(t, d)
       [] t.k = "float" -> FloatInputs(d)
+      [] t.k \in {"bytes", "barr"} ->
+            {S(<<>>), S(<<65, 65, 61, 61>>), S(<<65, 81, 73, 68>>), S(<<97, 71, 107, 61>>)}
+            \cup (IF d = 0 THEN {} ELSE
+                  {S(<<97, 71, 107>>), S(<<65, 66, 61, 61>>), S(<<65, 61, 61, 61>>), S(<<65, 65, 61, 65>>), S(<<97, 71, 107, 61, 10>>),
+                   S(<<64, 64, 64, 64>>), S(<<65, 81, 73, 68, 65, 65, 61, 61>>), S(<<65, 65, 61, 61, 65, 81, 73, 68>>), S(<<45, 95, 45, 95>>),
+                   N(<<49>>), Arr(<<N(<<49>>), N(<<50>>)>>), Arr(<<>>)})
       [] t.k = "slice" -> {Arr(<<>>)} \cup {Arr(<<x>>) : x \in Inputs(t.e, Dec(d))}
                           \cup (IF d = 0 THEN {} ELSE {Obj(<<>>), S(<<97>>)} \cup {Arr(<<x, y>>) : x, y \in Inputs(t.e, 0)})
       [] t.k = "array" -> {Arr(s) : s \in Product([i \in 1..t.n |-> Inputs(t.e, IF t.n > 1 THEN 0 ELSE Dec(d))])}
